@@ -72,3 +72,25 @@ Definition cursor_ident (c : cursor) : option (text * (N * N)) :=
 (* document.rs as_pos_range *)
 Definition pos_range (r : N * N) (t : text) : (N * N) * (N * N) :=
   (as_position (fst r) t, as_position (snd r) t).
+
+(* features.rs `is_global_position`: the identifier selected by `is_cursor` (the FIRST such token) is bound
+   globally whatever the enclosing procedure declares when the previous non-comment token is `proc`, `type`,
+   `:` or `of` (name of a global declaration / part of a type expression). *)
+Fixpoint gp_scan (prev : option kind) (l : list token) (is_cursor : token -> bool) : bool :=
+  match l with
+  | [] => false
+  | t :: r =>
+      if is_cursor t then
+        match prev with
+        | Some KProc | Some KType | Some Colon | Some KOf => true
+        | _ => false
+        end
+      else gp_scan (match tk t with Comment _ => prev | k => Some k end) r is_cursor
+  end.
+
+Definition is_global_position (c : cursor) : bool :=
+  gp_scan None (d_toks (c_doc c)) (fun t => in_range (ts t, te t) (c_index c)).
+
+(* features.rs `lookup_table_for(..).lookup(name)` *)
+Definition lookup_for (g : gtable) (l : ltable) (global_position : bool) (name : text) : option entry :=
+  lt_lookup (if global_position then None else Some l) (Some g) name.
